@@ -40,6 +40,7 @@ type FuncContract struct {
 	Loops    map[int]*LoopSpec
 	Asserts  map[string][]Clause // keyed by program point label
 	Assume   []Clause            // explicit assumptions (listed in evidence)
+	Focus    []Clause            // path restriction: ensures are proved only for paths satisfying these (they read "focus => post")
 	NoBody   bool                // contract only used at call sites, body not verified (listed)
 	Src      string
 	Ghost    []string
@@ -200,17 +201,20 @@ func (db *ContractDB) loadContractFile(path, pkgPath string) error {
 				return fail("%v", err)
 			}
 			cur.Requires = append(cur.Requires, Clause{Name: fmt.Sprintf("pre%d", len(cur.Requires)), SX: sx, Src: src})
-		case "ensures", "assume":
+		case "ensures", "assume", "focus":
 			name, props, r2 := splitName(rest)
 			sx, err := parseSX(r2)
 			if err != nil {
 				return fail("%v", err)
 			}
 			c := Clause{Name: name, Props: props, SX: sx, Src: src}
-			if kw == "ensures" {
+			switch kw {
+			case "ensures":
 				cur.Ensures = append(cur.Ensures, c)
-			} else {
+			case "assume":
 				cur.Assume = append(cur.Assume, c)
+			case "focus":
+				cur.Focus = append(cur.Focus, c)
 			}
 		case "assert":
 			// assert <label> <name> <sx>
